@@ -134,22 +134,21 @@ def _steps_check(ctx, pid, kind, cfgs, search_n, table_n, helper_n, deps):
     optimum = {}
     for idx, key in enumerate(keys, start=1):
         optimum[key] = best.get(idx, insts[idx - 1]["claim"])
-    wit_done = False
     for (n, s), lst in sorted(by_problem.items()):
         ref = optimum.get((n, s), min(x for x, _ in lst))
         for val, t in lst:
             if val != ref:
                 searched = (n, s) in optimum
-                w = None
-                if searched and not wit_done and (keys.index((n, s)) + 1) in best:
-                    w = witness(ctx, insts[keys.index((n, s))])
-                    wit_done = True
+                lazy = None
+                if searched and (keys.index((n, s)) + 1) in best:
+                    lazy = (lambda inst=insts[keys.index((n, s))]: {"witness": witness(ctx, inst)})
                 viols.append({
+                    "_lazy": lazy,
                     "property": pid, "clause": f"{pid}.optimal", "cls": t["cls"], "p": t["p"],
                     "N": n,
                     "what": f"{t.get('what') or fw.describe(t)}: {val} forward steps, "
                             + (f"exhaustive optimum {ref}" if searched else f"another implementation achieves {ref}"),
-                    "trace": {"cls": t["cls"], "p": t["p"], "N": n, "passes": 1, "witness": w}})
+                    "trace": {"cls": t["cls"], "p": t["p"], "N": n, "passes": 1}})
     # link 2: closed form / recurrence on the large box, and on the searched optima
     claims += helpers
     for (n, s), o in optimum.items():
@@ -273,19 +272,15 @@ def check_c07(ctx):
             insts.append(inst)
             owner.append(t)
     best = search(ctx, insts, timeout=3000)
-    wit_done = False
     for idx, found in sorted(best.items()):
         t = owner[idx - 1]
-        w = None
-        if not wit_done:
-            w = witness(ctx, insts[idx - 1])
-            wit_done = True
-        viols.append({"property": "C07", "clause": "C07.optimal", "cls": t["cls"], "p": t["p"],
+        viols.append({"_lazy": (lambda inst=insts[idx - 1]: {"witness": witness(ctx, inst)}),
+                      "property": "C07", "clause": "C07.optimal", "cls": t["cls"], "p": t["p"],
                       "N": t["N"],
                       "what": f"{fw.describe(t)}: cost {insts[idx-1]['claim']} (without ub*n), an executable "
                               f"schedule of cost {found} exists",
                       "trace": {"cls": t["cls"], "p": t["p"], "N": t["N"], "passes": 1,
-                                "instance": insts[idx - 1], "witness": w}})
+                                "instance": insts[idx - 1]}})
     path = os.path.join(ctx.dir, "order.json")
     json.dump(order_claims, open(path, "w"))
     r = tlc.run("CostOrder", env={"CLAIMS_FILE": path}, timeout=1200)
